@@ -1,0 +1,109 @@
+//go:build verif
+
+// Machine-checked contracts for package lease (comment-only file; never
+// compiled into the library).  Read by /verif/engine (gvc).
+
+package lease
+
+//@ import "time"
+//@ import "github.com/go-i2p/common/data"
+
+// ---------------------------------------------------------------- Lease (44 bytes)
+
+//@ contract ReadLease(data []byte) (lease Lease, remainder []byte, err error)
+//@   ensures @C01 @C03 (err == nil) == (len(data) >= 44)
+//@   ensures @C01 @C03 err == nil ==> seqeq(lease[:], data[:44]) && suffix(remainder, data, 44)
+//@   ensures @C03 err != nil ==> remainder == nil
+//@   modifies nothing
+
+//@ contract NewLeaseFromBytes(data []byte) (lease *Lease, remainder []byte, err error)
+//@   ensures @C19 (err == nil) == (len(data) >= 44)
+//@   ensures @C19 err == nil ==> lease != nil && seqeq(lease[:], data[:44]) && suffix(remainder, data, 44)
+//@   ensures err != nil ==> lease == nil && remainder == nil
+//@   modifies nothing
+
+//@ contract (lease Lease) Bytes() (b []byte)
+//@   ensures @C01 len(b) == 44 && seqeq(b, lease[:]) && fresh(b)
+//@   modifies nothing
+
+//@ contract (lease Lease) TunnelID() (id uint32)
+//@   ensures @C02 uint64(id) == val(lease[32:36])
+//@   modifies nothing
+
+//@ contract (lease Lease) TunnelGateway() (hash data.Hash)
+//@   ensures @C02 seqeq(hash[:], lease[:32])
+//@   modifies nothing
+
+//@ contract (lease Lease) Date() (date data.Date)
+//@   ensures @C15 @C02 seqeq(date[:], lease[36:44])
+//@   modifies nothing
+
+//@ contract (lease Lease) Time() (t time.Time)
+//@   ensures @C15 val(lease[36:44]) <= 9223372036854775807 ==> t.Equal(time.UnixMilli(int64(val(lease[36:44]))))
+//@   modifies nothing
+
+//@ contract NewLease(tunnelGateway data.Hash, tunnelID uint32, expirationTime time.Time) (lease *Lease, err error)
+//@   ensures @C02 err == nil && lease != nil
+//@   ensures @C02 seqeq(lease[:32], tunnelGateway[:]) && val(lease[32:36]) == uint64(tunnelID)
+//@   ensures @C02 @C15 0 <= expirationTime.UnixMilli() ==> val(lease[36:44]) == uint64(expirationTime.UnixMilli())
+//@   modifies nothing
+
+// ---------------------------------------------------------------- Lease2 (40 bytes)
+
+//@ contract ReadLease2(data []byte) (lease2 Lease2, remainder []byte, err error)
+//@   ensures @C01 @C03 (err == nil) == (len(data) >= 40)
+//@   ensures @C01 @C03 err == nil ==> seqeq(lease2[:], data[:40]) && suffix(remainder, data, 40)
+//@   ensures @C03 err != nil ==> remainder == nil
+//@   modifies nothing
+
+//@ contract NewLease2FromBytes(data []byte) (lease2 *Lease2, remainder []byte, err error)
+//@   ensures @C19 (err == nil) == (len(data) >= 40)
+//@   ensures @C19 err == nil ==> lease2 != nil && seqeq(lease2[:], data[:40]) && suffix(remainder, data, 40)
+//@   ensures err != nil ==> lease2 == nil && remainder == nil
+//@   modifies nothing
+
+//@ contract (lease2 Lease2) Bytes() (b []byte)
+//@   ensures @C01 len(b) == 40 && seqeq(b, lease2[:]) && fresh(b)
+//@   modifies nothing
+
+//@ contract (lease2 Lease2) TunnelID() (id uint32)
+//@   ensures @C02 uint64(id) == val(lease2[32:36])
+//@   modifies nothing
+
+//@ contract (lease2 Lease2) EndDate() (d uint32)
+//@   ensures @C15 @C02 uint64(d) == val(lease2[36:40])
+//@   modifies nothing
+
+//@ contract (lease2 Lease2) Time() (t time.Time)
+//@   ensures @C15 t.Equal(time.Unix(int64(val(lease2[36:40])), 0))
+//@   modifies nothing
+
+//@ contract (lease2 Lease2) Date() (date data.Date)
+//@   ensures @C15 val(date[:]) == val(lease2[36:40])*1000
+//@   modifies nothing
+
+// The 32-bit lease rejects times outside its range instead of storing a wrapped value.
+//@ contract NewLease2(tunnelGateway data.Hash, tunnelID uint32, expirationTime time.Time) (lease2 *Lease2, err error)
+//@   ensures @C15 (err == nil) == (0 <= expirationTime.Unix() && expirationTime.Unix() <= 4294967295)
+//@   ensures @C15 @C02 err == nil ==> lease2 != nil && seqeq(lease2[:32], tunnelGateway[:]) && val(lease2[32:36]) == uint64(tunnelID) && val(lease2[36:40]) == uint64(expirationTime.Unix())
+//@   ensures err != nil ==> lease2 == nil
+//@   modifies nothing
+
+//@ lemma C01_ReadLease(data []byte) {
+//@   l, rem, err := ReadLease(data)
+//@   if err == nil {
+//@     assert(seqeq(l.Bytes(), data[:len(data)-len(rem)]))
+//@   }
+//@ }
+
+//@ lemma C01_ReadLease2(data []byte) {
+//@   l, rem, err := ReadLease2(data)
+//@   if err == nil {
+//@     assert(seqeq(l.Bytes(), data[:len(data)-len(rem)]))
+//@   }
+//@ }
+
+//@ lemma C15_Lease2DateIsEndTimesThousand(l Lease2) {
+//@   d := l.Date()
+//@   assert(d.Time().Equal(l.Time()))
+//@ }
